@@ -17,6 +17,7 @@ func init() {
 		ContraProj(c, "R-CONTRA", []*packages.Package{c.Pkg("eq"), c.Pkg("hash")})
 		PtrDeref(c, "R-PTRDEREF", []*packages.Package{c.Pkg("eq"), c.Pkg("hash")})
 		BothSizes(c, "R-BOTHSIZES", []*packages.Package{c.Pkg("eq"), c.Pkg("hash")})
+		PtrIdentity(c, "R-PTRIDENT", []*packages.Package{c.Pkg("eq"), c.Pkg("hash")})
 		eqh := []*packages.Package{c.Pkg("eq"), c.Pkg("hash")}
 		MapOK(c, "R-MAPOK", eqh, 0) // the one lookup disappears when the closure is written with maps.EqualFunc
 		Mirror(c, "R-MIRROR", eqh, typeclassBinMethods, false, nil, 40)
